@@ -26,6 +26,8 @@ func runWalksOpt(c *harness.Ctx, walks int, o WalkOpts, enabled ...string) {
 	for i := 0; i < walks; i++ {
 		o := base
 		switch i % 5 {
+		case 2:
+			o.Reencode = true // stored entries rewritten into equivalent representations between legs
 		case 3:
 			o.PadNumbers = true // non-minimal number encodings among the arguments
 		case 4:
